@@ -65,6 +65,15 @@ EDITS = {
     "insenc-materialise-list": ("permuta/permutils/insertion_encodable.py",
         "        basis = tuple(basis)\n",
         "        basis = list(basis)\n", ["C13"]),
+    "popstack-explicit-len-test": ("permuta/patterns/perm.py",
+        "            if stack and num > stack[0]:\n                result.extend(stack)\n                stack.clear()",
+        "            if len(stack) > 0 and stack[0] < num:\n                result.extend(stack)\n                stack.clear()", ["C12"]),
+    "stacksort-rename-result-list": ("permuta/patterns/perm.py",
+        "            n_lis = Perm._stack_sort(perm_slice[0:max_i])\n            n_lis.extend(Perm._stack_sort(perm_slice[max_i + 1 : n]))\n        n_lis.append(max_v)\n        return n_lis\n\n    def stack_sort",
+        "            n_lis = Perm._stack_sort(perm_slice[:max_i])\n            right = Perm._stack_sort(perm_slice[max_i + 1 :])\n            n_lis.extend(right)\n        n_lis.append(max_v)\n        return n_lis\n\n    def stack_sort", ["C12"]),
+    "bubblesort-length-test": ("permuta/patterns/perm.py",
+        "        n = len(perm_slice)\n        if n in (0, 1):\n            return perm_slice\n        max_i, max_v = max(enumerate(perm_slice), key=lambda pos_elem: pos_elem[1])\n        # Recursively solve without largest\n        if max_i == 0:\n            n_lis = perm_slice[1:n]",
+        "        n = len(perm_slice)\n        if n <= 1:\n            return perm_slice\n        max_i, max_v = max(enumerate(perm_slice), key=lambda pos_elem: pos_elem[1])\n        # Recursively solve without largest\n        if max_i == 0:\n            n_lis = perm_slice[1:]", ["C12"]),
 }
 
 
